@@ -103,7 +103,8 @@ def fl(x):
 
 def media(spec, w):
     """(n_list, k_list) of the media after surfaces 0..K+1 at wavelength w (unsigned)."""
-    ns = [float(spec['obj'].get('n', 1.0))]
+    om = spec['obj'].get('mat')           # optional: a (dispersive) medium of the object space instead of the number n
+    ns = [mat_index(om, w) if om else float(spec['obj'].get('n', 1.0))]
     ks = [0.0]
     for s in spec['surfs']:
         ns.append(mat_index(s['mat'], w, ns[-1]))
